@@ -57,27 +57,45 @@ TRUSTED_BASE_COMMON = [
 
 
 class build_lock:
-    """one build at a time in the shared trees (coq/, ocaml/, harness/bin): checks may be started side by side.
-    Re-entrant within a process."""
+    """one build at a time in the trees a build writes to (coq/, harness/bin): checks may be started side by side.
+    Re-entrant within a process. With VERIF_REPO_DIR the Coq tree, the harness and the work directory are private copies
+    and so is this lock; the OCaml drivers are always built in the shared /verif/ocaml (ocaml_lock)."""
     depth = 0
     f = None
+    lockname = ".build.lock"
+
+    @classmethod
+    def lockdir(cls):
+        return WORK
 
     def __enter__(self):
         import fcntl
-        if build_lock.depth == 0:
-            os.makedirs(os.path.join(VERIF, "work"), exist_ok=True)
-            build_lock.f = open(os.path.join(VERIF, "work", ".build.lock"), "w")
-            fcntl.flock(build_lock.f, fcntl.LOCK_EX)
-        build_lock.depth += 1
+        cls = type(self)
+        if cls.depth == 0:
+            os.makedirs(cls.lockdir(), exist_ok=True)
+            cls.f = open(os.path.join(cls.lockdir(), cls.lockname), "w")
+            fcntl.flock(cls.f, fcntl.LOCK_EX)
+        cls.depth += 1
         return self
 
     def __exit__(self, *a):
         import fcntl
-        build_lock.depth -= 1
-        if build_lock.depth == 0:
-            fcntl.flock(build_lock.f, fcntl.LOCK_UN)
-            build_lock.f.close()
-            build_lock.f = None
+        cls = type(self)
+        cls.depth -= 1
+        if cls.depth == 0:
+            fcntl.flock(cls.f, fcntl.LOCK_UN)
+            cls.f.close()
+            cls.f = None
+
+
+class ocaml_lock(build_lock):
+    depth = 0
+    f = None
+    lockname = ".ocaml.lock"
+
+    @classmethod
+    def lockdir(cls):
+        return os.path.join(VERIF, "work")
 
 
 def sh(cmd, timeout=600, cwd=None, env=None, input=None):
@@ -186,7 +204,7 @@ class Check:
         return rc == 0, out[-2500:]
 
     def ocaml_build(self, model, driver, outname):
-        with build_lock():
+        with ocaml_lock():
             rc, out = sh("./build.sh %s %s %s" % (model, driver, outname), cwd=os.path.join(VERIF, "ocaml"), timeout=600)
         if rc != 0:
             self.broken.append("OCaml build of %s: %s" % (outname, out[-800:]))
